@@ -227,6 +227,22 @@ pub fn run(ctx: &mut Ctx) {
             Err(m) => Err(Fail::new(m, "osu", text.into_bytes())),
         }
     });
+    // scale: very many rejected lines, a very long (accepted or rejected) line, big sliders, hostile geometry
+    let cases = ctx.tier.pick(150u64, 1_500u64);
+    ctx.pbt("c06-scale", cases, 400, |t, st| {
+        let (text, family) = crate::gen::doc::gen_scale_doc(t);
+        st.eval();
+        match evaluate(&text) {
+            Ok(o) => {
+                st.label(&format!("family:{family}"));
+                if o.nontrivial {
+                    st.nontrivial(hash64(&text));
+                }
+                Ok(())
+            }
+            Err(m) => Err(Fail::new(m.chars().take(1500).collect::<String>(), "osu", text.into_bytes())),
+        }
+    });
 }
 
 pub fn replay(_ctx: &mut Ctx, ext: &str, bytes: &[u8]) -> Result<Option<String>, Fail> {
